@@ -51,6 +51,15 @@ def run(ctx):
     strmodel.report(ctx, "C02/PARAM-WIRE", strmodel.explore_params_extended, ["line round trip", "round trip"],
                     m.own_method("parser.Parameters.to_ical").loc(), 300,
                     select=lambda law: law in ("line round trip", "round trip"))
+    # numbers, positions, booleans ... supplied through the API decode to equal values
+    codecmodel_ = __import__("sa.codecmodel", fromlist=["x"])
+    codecmodel_.report(ctx, "C02/SCALARS", codecmodel_.explore_scalars, codecmodel_.SCALAR_LAWS,
+                       m.cls("prop.vFloat").loc(), 30)
+    # the nesting survives serialisation in every mode (sorted or insertion order): tree model
+    from .. import treemodel
+    treemodel.report(ctx, "C02/TREE-EMIT", treemodel.explore_emit,
+                     "every component, property and value of the tree is emitted, sorted or not",
+                     m.func("cal.Component.property_items").loc(), 200)
     # every date/time/duration/period text of a property is decoded as the type its grammar says
     from .. import codecmodel
     codecmodel.report(ctx, "C02/DISPATCH", codecmodel.explore_dispatch, ["classification", "composite"],
